@@ -302,8 +302,15 @@ def _encode_node(draw, T, vals, cfg, under_option):
         if cfg.numpy_nd and leaf is not None and draw(st.integers(0, 2)) == 0:
             flat = _flatten_rect(vals, len(shape))
             d = {"class": "NumpyArray", "dtype": leaf, "shape": [n] + shape, "data": _leafdata(flat, leaf)}
-            if draw(st.integers(0, 3)) == 0:
+            k = draw(st.integers(0, 7))
+            if k < 2:
                 d["phys"] = {"order": "F"}
+            elif k < 4 and cfg.strided:
+                nd = 1 + len(shape)
+                d["phys"] = {"view": {"pre": [draw(st.integers(0, 2)) for _ in range(nd)], "step": [draw(st.sampled_from([1, 1, 2, 3])) for _ in range(nd)],
+                                      "post": [draw(st.integers(0, 1)) for _ in range(nd)]}, "fill": 99}
+                if k == 3:
+                    d["phys"]["order"] = "F"
             return d
         flat = [x for v in vals for x in v]
         if size > 0:
